@@ -13,7 +13,8 @@ SPEC = {
         ('K-next(monotone score; a candidate inherits the round of its predecessor, so what is derived from a non-emitting state is expanded in the same round)', 'next', '^(score:(monotone|non-emitting)|fields:delayed)'),
         ('K-upsert(keeps the better)', 'upsert', '^upsert:present'),
         ("_match_non_emitting_states_end(next column written only through keep-the-better upsert; worse candidates dropped)", 'ne_end', r'^ne-end:'),
-        ("match(per observation: emitting expansion first and unconditional, non-emitting search after it iff enabled)", 'match', r'^loop:(emitting-expansion|non-emitting-search)')],
+        ("match(per observation: emitting expansion first and unconditional, non-emitting search after it iff enabled)", 'match', r'^loop:(emitting-expansion|non-emitting-search)'),
+        ("_match_non_emitting_states(per level: one more non-emitting step, then every live entry of the level is linked to the next observation)", 'ne_levels', r'^levels:(steps|every-live|inner-step)')],
     'bounded': [
         ('ne-on-vs-off', suites.case_C06, 1500, 25000, RULE + '; ' + 'non-trivial = the run with non-emitting states uses one on its best path or the matched indices differ', '')],
 }
